@@ -62,6 +62,9 @@ struct Hist {
     bool opReadModifyWrite();
     bool opSelfFrame();
     bool opSelfParam();
+    bool opFailedLoad();
+    bool opSecondObject();
+    bool opManyPoints();
 
     // helpers
     Frame buildFrame(int deviation, std::string* devName, SFrame* intended, int forceSub = -1);
